@@ -65,8 +65,15 @@ def finish (joined : Bytes) : Bytes := trimSpace (trimPrefix joined Gen.Response
 /-- `record1dot1Chunks`: result on success -/
 def decode11 (raw : Bytes) : Except DErr Bytes := (decode11Raw raw).map finish
 
-/-- `record1dot0` (never fails) -/
+/-- `record1dot0` (never fails): white space around the message, the canonical XML declaration, white
+    space again, the end-of-message delimiter, white space again -/
 def decode10 (raw : Bytes) : Bytes :=
+  trimSpace (trimSuffix (trimSpace (trimPrefix (trimSpace raw) Gen.Response.xmlHeader)) Gen.Response.v1Dot0Delim)
+
+/-- `record1dot0` as it read before fix 72d4808 (finding C02-F21): the declaration was looked for
+    before the white space in front of the message had been removed. Kept as a negative witness
+    (`Props/C02.lean`: `decode10_before_fix_keeps_declaration`). -/
+def decode10BeforeFix (raw : Bytes) : Bytes :=
   trimSpace (trimSuffix (trimSpace (trimPrefix raw Gen.Response.xmlHeader)) Gen.Response.v1Dot0Delim)
 
 def containsAny (markers : List Bytes) (b : Bytes) : Bool := markers.any fun m => isInfix m b
@@ -90,6 +97,51 @@ def record (markers : List Bytes) (v : Version) (raw : Bytes) : Recorded :=
     match decode11 raw with
     | .ok r => { result := r, failed := containsAny markers raw || containsAny markers r, parseErr := false }
     | .error _ => { result := [], failed := true, parseErr := true }
+
+/-! ## rpc-error messages (`Record`: `rpcSingleErrors.FindAll(raw, -1)` + severity classification)
+
+`rpcSingleErrors` is `(?sU)<rpc-errors?>.*</rpc-errors?>`: the leftmost opening tag, then (lazy
+star) the nearest closing tag behind it; the search goes on behind the match. If the first opening
+tag has no closing tag behind it, no later one has. `errorBlocks` is that scan written by hand
+(specification side; the regular expression itself is tied by the per-run differential run). -/
+
+/-- `<rpc-error>`, `<rpc-errors>` -/
+def errOpenTags : List Bytes := [[60,114,112,99,45,101,114,114,111,114,62], [60,114,112,99,45,101,114,114,111,114,115,62]]
+/-- `</rpc-error>`, `</rpc-errors>` -/
+def errCloseTags : List Bytes := [[60,47,114,112,99,45,101,114,114,111,114,62], [60,47,114,112,99,45,101,114,114,111,114,115,62]]
+/-- `<error-severity>error</error-severity>` -/
+def sevError : Bytes := [60,101,114,114,111,114,45,115,101,118,101,114,105,116,121,62,101,114,114,111,114,60,47,101,114,114,111,114,45,115,101,118,101,114,105,116,121,62]
+/-- `<error-severity>warning</error-severity>` -/
+def sevWarning : Bytes := [60,101,114,114,111,114,45,115,101,118,101,114,105,116,121,62,119,97,114,110,105,110,103,60,47,101,114,114,111,114,45,115,101,118,101,114,105,116,121,62]
+
+/-- first position at which one of `tags` starts: (bytes before it, the tag, bytes behind it) -/
+def findTag (tags : List Bytes) : Bytes → Option (Bytes × Bytes × Bytes)
+  | [] => none
+  | b :: t =>
+    match tags.find? (fun tg => hasPrefix (b :: t) tg) with
+    | some tg => some ([], tg, (b :: t).drop tg.length)
+    | none => (findTag tags t).map fun (pre, tg, rest) => (b :: pre, tg, rest)
+
+/-- the non-overlapping `<rpc-error(s)>…</rpc-error(s)>` blocks of `s`, left to right -/
+def errorBlocks : Nat → Bytes → List Bytes
+  | 0, _ => []
+  | f + 1, s =>
+    match findTag errOpenTags s with
+    | none => []
+    | some (_, otag, rest) =>
+      match findTag errCloseTags rest with
+      | none => []
+      | some (body, ctag, rest') => (otag ++ body ++ ctag) :: errorBlocks f rest'
+
+/-- the `switch` in `Record`: a block with severity `error` is an error message, otherwise one with
+    severity `warning` is a warning message, otherwise it is dropped -/
+def classifyMsgs (blocks : List Bytes) : List Bytes × List Bytes :=
+  (blocks.filter (fun m => isInfix sevError m),
+   blocks.filter (fun m => !isInfix sevError m && isInfix sevWarning m))
+
+/-- `ErrorMessages`, `WarningErrorMessages` of a fresh response after `Record(raw)` -/
+def messages (markers : List Bytes) (raw : Bytes) : List Bytes × List Bytes :=
+  if containsAny markers raw then classifyMsgs (errorBlocks (raw.length + 1) raw) else ([], [])
 
 /-! ## RFC 6242 / RFC 4742 encoders (specification side) -/
 def chunk (c : Bytes) : Bytes := [LF, HASH] ++ decDigits c.length ++ [LF] ++ c
